@@ -99,6 +99,35 @@ def oracle(chk):
         Kd = np.array([[float(nest.evaluate(jnp.asarray(a), jnp.asarray(b))) for b in X] for a in X]) + 0.3 * np.eye(5)
         ll = -0.5 * y @ np.linalg.solve(Kd, y) - 0.5 * np.linalg.slogdet(Kd)[1] - 2.5 * np.log(2 * np.pi)
         ck("inside GaussianProcess", gp.log_probability(jnp.asarray(y)), ll, 1e-9)
+    # NON-STATIONARY base kernels (k(x, x) depends on x, so a transform that is skipped on the diagonal shows) through every view:
+    # pairwise value, the diagonal-only path kernel(X), the diagonal of kernel(X, X), the variance of a process and of its prediction
+    for bname, nb in (("DotProduct", kernels.DotProduct()), ("Polynomial", kernels.Polynomial(order=2.0, scale=jnp.asarray(1.3), sigma=jnp.asarray(0.7))),
+                      ("DotProduct*ExpSquared", kernels.DotProduct() * kernels.ExpSquared(jnp.asarray(1.1)))):
+        d = 3
+        X = rng.normal(size=(4, d))
+        s = float(rng.uniform(0.4, 1.8))
+        v = rng.uniform(0.4, 1.8, size=d)
+        Mx = rng.normal(size=(d, d))
+        L = np.tril(rng.normal(size=(d, d)) * 0.5) + np.diag(rng.uniform(0.8, 2, size=d))
+        nbe = lambda a, b: float(nb.evaluate(jnp.asarray(a), jnp.asarray(b)))  # noqa: E731
+        for tname, tk, fmap in (("Transform", transforms.Transform(lambda x: jnp.tanh(x) * 2.0, nb), lambda x: np.tanh(x) * 2),
+                                ("Linear/scalar", transforms.Linear(jnp.asarray(s), nb), lambda x: s * x),
+                                ("Linear/vector", transforms.Linear(jnp.asarray(v), nb), lambda x: v * x),
+                                ("Linear/matrix", transforms.Linear(jnp.asarray(Mx), nb), lambda x: Mx @ x),
+                                ("Linear(Linear)", transforms.Linear(jnp.asarray(s), transforms.Linear(jnp.asarray(v), nb)), lambda x: v * (s * x)),
+                                ("Cholesky/scalar", transforms.Cholesky(jnp.asarray(s), nb), lambda x: x / s),
+                                ("Cholesky/vector", transforms.Cholesky(jnp.asarray(v), nb), lambda x: x / v),
+                                ("Cholesky/matrix", transforms.Cholesky(jnp.asarray(L), nb), lambda x: np.linalg.solve(L, x)),
+                                ("Subspace", transforms.Subspace((0, 2), nb), lambda x: x[[0, 2]])):
+            want = np.array([[nbe(fmap(a), fmap(b)) for b in X] for a in X])
+            info = dict(base=bname, X=X.tolist())
+            ck(f"{tname}[{bname}]/pairwise matrix", tk(jnp.asarray(X), jnp.asarray(X)), want, 1e-9, **info)
+            ck(f"{tname}[{bname}]/diagonal path kernel(X)", tk(jnp.asarray(X)), np.diag(want), 1e-9, **info)
+            gpn = GaussianProcess(tk, jnp.asarray(X), diag=0.3)
+            ck(f"{tname}[{bname}]/process variance", gpn.variance, np.diag(want) + 0.3, 1e-9, **info)
+            yv = rng.normal(size=4)
+            cnd = gpn.condition(jnp.asarray(yv)).gp
+            ck(f"{tname}[{bname}]/conditional variance = diag(conditional covariance)", cnd.variance, np.diag(np.asarray(cnd.covariance)), 1e-9, **info)
     return bad, n_eval, len(distinct)
 
 
